@@ -31,7 +31,6 @@ Fixpoint parity (mask bits : list bool) : bool :=
 
 Definition u8 (z : Z) : Z := z mod 256.
 Definition q4_sub (x y : q4) : q4 := q4_add x (q4_scale (-1) y).
-Definition zsum (l : list Z) : Z := fold_right Z.add 0 l.
 
 Inductive eval_result :=
 | EvExact (v : esa)                              (* total_summands.reduce().sum(), before to_complex *)
@@ -111,7 +110,7 @@ Section Row.
   (* ---------------------------------------------------------------- the C09 no-wrap guard, as a decidable check
      of this very computation: every int32 product below is the exact product, no power leaves int32,
      the aligned sum does not wrap. *)
-  Definition pow_ok (p : Z) : bool := (- 2 ^ 30 <? p) && (p <? 2 ^ 30).
+  Definition pow_ok (p : Z) : bool := (- 2 ^ 29 <? p) && (p <? 2 ^ 29).
   Definition mul_fits (x y : esa) : bool :=
     (norm1 (fst x) * norm1 (fst y) <? H32) && pow_ok (snd x) && pow_ok (snd y).
   Fixpoint fold_guard (l : list esa) (acc : esa) : bool :=
@@ -142,3 +141,22 @@ Section Row.
     (if c_has_approx c then true
      else match all_some (map ev_exact_one (c_graphs c)) with Some l => sum_guard l | None => false end).
 End Row.
+
+(* ------------------------------------------------------------------ what a result denotes (same ring as `scalar_value`) *)
+Section Denote.
+  Variable R : Type.
+  Variables (rO rI : R) (radd rmul rsub : R -> R -> R) (ropp : R -> R).
+  Variable w : R.
+  Variable half : R.
+  Variable cexp : Z -> positive -> R.
+  Variable opq : Z -> R.
+  (* ExactScalarArray: (a + b w + c w^2 - d w^3) * 2^power *)
+  Definition esa_value (x : esa) : R := rmul (den4 R rO rI radd rmul ropp w (fst x)) (pow2 R rI radd rmul half (snd x)).
+  Definition result_value (r : eval_result) : R :=
+    match r with
+    | EvExact v => esa_value v                                    (* total_summands.sum().to_complex() *)
+    | EvApprox l =>                                               (* sum(to_complex() * approximate_floatfactors * 2.0**power2) *)
+      rsuml R rO radd (map (fun x => rmul (rmul (esa_value (fst (fst x))) (afac_value R rI rmul cexp opq (snd (fst x))))
+                                          (pow2 R rI radd rmul half (snd x))) l)
+    end.
+End Denote.
